@@ -76,7 +76,7 @@ prop("C08", "Unbounded proof that only acknowledged parts count as sent: the pay
       "(*payload.Bin).Split": None,
       S+"Received": None})
 prop("C10", "Unbounded proof of the per-call rules of the queue's emission: a chunk never names itself, unordered tags announce no predecessor, ordered ones announce the name returned for the chain predecessor (recovered files keep their own), the slice is exactly what the allocator returned, a placeholder skipped at the head stays the predecessor of the file behind it (under local list consistency); unordered tags drop the predecessor in the binnable; the list surgery on files (unlink, insert before/behind) joins the neighbours and links the node where asked (pointer postconditions under linearity hypotheses)",
-     "global acyclicity of the predecessor relation over Push/Pop histories; sorted insertion (addFile) not yet under contract; same name queued twice concurrently",
+     "global acyclicity of the predecessor relation over Push/Pop histories; that the group list is sorted is a history invariant (per call: the new file goes where the binary search with the order predicate says and the others keep their relative order in front of it; the shift of the files behind it is not discharged); sort.Search trusted (result within [0,n], predicate run in the caller's context); same name queued twice concurrently",
      {"(*queue.Tagged).Pop": ["no-self-reference", "unordered-has-no-prev", "prev-is-chain-predecessor", "slice-from-allocate", "allocates-unallocated-only", "placeholder-stays-predecessor"],
       "(*queue.sortedFile).getPrevName": None,
       "(*client.binnable).GetPrev": None,
@@ -265,6 +265,9 @@ _add("C04", "(*queue.sortedFile).getPrevName")
 _add("C06", S+"Recover", ["recovered-wait-bodies-are-validated", "no-direct-finalize", "no-direct-delivery"])
 _add("C09", S+"cleanStrays")
 _add("C20", S+"initStageFile")
+# round 7: the sorted insertion itself
+for _p in ("C10", "C12"):
+    _add(_p, "(*queue.Tagged).addFile")
 
 os.makedirs(os.path.join(V, "props"), exist_ok=True)
 for pid, p in P.items():
